@@ -35,3 +35,5 @@ import L21.Props.NumConsts
 #print axioms L21.c04_dbu_table_is_source
 #print axioms L21.Lef.c04_site_any_order
 #print axioms L21.Lef.c04_genvia_any_order
+#print axioms L21.Lef.c04_text_any_order
+#print axioms L21.Lef.c04_text_reads_back
